@@ -62,8 +62,9 @@ class C03(Check):
         import sopht.numeric.eulerian_grid_ops as spne
 
         for rt in (np.float32, np.float64):
-            spne.UnboundedPoissonSolverPYFFTW2D(grid_size_y=2, grid_size_x=3, real_t=rt)
-            spne.UnboundedPoissonSolverPYFFTW3D(grid_size_z=2, grid_size_y=2, grid_size_x=3, real_t=rt)
+            for nt in (1, 2, 3, 4):
+                spne.UnboundedPoissonSolverPYFFTW2D(grid_size_y=2, grid_size_x=3, real_t=rt, num_threads=nt)
+                spne.UnboundedPoissonSolverPYFFTW3D(grid_size_z=2, grid_size_y=2, grid_size_x=3, real_t=rt, num_threads=nt)
 
     # ------------------------------------------------------------ program
     def _draw_shape(self, rng, dim, tier):
@@ -113,7 +114,7 @@ class C03(Check):
         n_solvers = 1 if rng.random() < 0.6 else 2
         solvers = []
         for _ in range(n_solvers):
-            solvers.append({"shape": self._draw_shape(rng, dim, tier), "x_range": rng.choice(X_RANGES)})
+            solvers.append({"shape": self._draw_shape(rng, dim, tier), "x_range": rng.choice(X_RANGES), "num_threads": rng.choice([1, 1, 2, 3, 4])})
         if n_solvers == 2 and rng.random() < 0.4:
             # two solver objects alive together that differ only in the domain length
             solvers[1]["shape"] = list(solvers[0]["shape"])
@@ -218,11 +219,11 @@ class C03(Check):
             real_ts.append(real_t)
             shape = tuple(s["shape"])
             if dim == 2:
-                solvers.append(spne.UnboundedPoissonSolverPYFFTW2D(grid_size_y=shape[0], grid_size_x=shape[1], x_range=s["x_range"], real_t=real_t))
+                solvers.append(spne.UnboundedPoissonSolverPYFFTW2D(grid_size_y=shape[0], grid_size_x=shape[1], x_range=s["x_range"], real_t=real_t, num_threads=int(s.get("num_threads", 1))))
             else:
                 solvers.append(
                     spne.UnboundedPoissonSolverPYFFTW3D(
-                        grid_size_z=shape[0], grid_size_y=shape[1], grid_size_x=shape[2], x_range=s["x_range"], real_t=real_t
+                        grid_size_z=shape[0], grid_size_y=shape[1], grid_size_x=shape[2], x_range=s["x_range"], real_t=real_t, num_threads=int(s.get("num_threads", 1))
                     )
                 )
             models.append(GreenModel(shape, s["x_range"], real_t))
@@ -287,7 +288,16 @@ class C03(Check):
             view = op["view"]
             if vec:
                 rhs_c = np.stack(rhs_arrays)
-                sol_c = rhs_c if view == "inplace" else np.full_like(rhs_c, 7.7e5)
+                if view in ("transposed", "interleaved"):
+                    # vector fields stored component-last (a legal view with non-unit inner stride)
+                    carrier = np.zeros((*shape, 3), dtype=real_t)
+                    carrier[...] = np.moveaxis(rhs_c, 0, -1)
+                    rhs_c = np.moveaxis(carrier, -1, 0)
+                if view in ("transposed", "interleaved"):
+                    sol_carrier = np.full((*shape, 3), 7.7e5, dtype=real_t)
+                    sol_c = np.moveaxis(sol_carrier, -1, 0)
+                else:
+                    sol_c = rhs_c if view == "inplace" else np.full_like(rhs_c, 7.7e5)
                 solver.vector_field_solve(solution_vector_field=sol_c, rhs_vector_field=rhs_c)
                 outs = [sol_c[k] for k in range(3)]
                 res.probe("vector_solve")
